@@ -503,7 +503,10 @@ func TestC19_ConcurrentRegister(t *testing.T) {
 		wg.Add(3)
 		arrive := func() {
 			atomic.AddInt32(&ready, 1)
-			for atomic.LoadInt32(&ready) < 3 {
+			for spins := 0; atomic.LoadInt32(&ready) < 3; spins++ {
+				if spins > 200 {
+					runtime.Gosched() // do not burn a loaded machine's CPU while a peer is descheduled
+				}
 			}
 		}
 		go func() {
